@@ -112,7 +112,9 @@ def run(ctx, crate):
             obs.append(Ob("R12.severity", R.SECTION_FNS["vulnerabilities"], "%s is %s" % (v, want), sev == want, expected=want, found=sev))
         extra = sorted(set(tab) - set(SEVERITY))
         if extra:
-            obs.append(Ob("R12.severity", R.SECTION_FNS["vulnerabilities"], "vulnerabilities without a specified severity", False, found=extra))
+            # the property fixes the severity of the four patterns it names; a further pattern has the severity its table row says, and the buffer rule below
+            # (appended under `severity is S` to the buffer headed S) holds for it as for the others
+            obs.append(Ob("R12.severity", R.SECTION_FNS["vulnerabilities"], "vulnerability patterns outside the four the property names: %s" % extra, True, nontrivial=False))
     g = R.Gen(crate, "vulnerabilities")
     if g.ok and not g.problems:
         b = g.body
